@@ -477,12 +477,13 @@ def r5_after_cannot_teardown(ctx, rep, R='C01.R5'):
                              c.func.attr in ('pop', 'remove', 'clear') and is_name(c.func.value, q))
         pops += [n.id for n in g.nodes if n.kind == 'stmt' and isinstance(n.ast, ast.Delete) and
                  mentions(n.ast, q)]
-        # the only way around resume_tests is an empty queue
-        r2 = g.reach_flags(H, avoid=set(RT), include_start=True,
-                           edge_ok=lambda s, d, k: not (g.node(s).kind == 'test' and
-                                                  is_name(truth_test(g.node(s).ast)[1], q) and
-                                                  k == ('false' if truth_test(g.node(s).ast)[0]
-                                                        else 'true')))  # noqa
+        # the only way around resume_tests is an empty queue: evaluate the guards with the queue
+        # known to be non-empty and the boolean flags as set on the path
+        def qatom(e):
+            return True if is_name(e, q) else None
+        r2 = set()
+        for st in g.flag_states_at(H[0]) or [{}]:
+            r2 |= g.reach_flags(H, avoid=set(RT), include_start=True, init=st, atom=qatom)
         rep.check(g.exit not in r2, R, 'resume_tests reached after CanNotTearDown',
                   'after CanNotTearDown the function can return without resume_tests although '
                   'layers remain', key='resume-skipped', func=fi.qualname,
